@@ -580,7 +580,81 @@ def c19_run(ctx):
                     problems.append((f"layout-raises:{lname_}", f"{fl}:{sig} fields {[f_ for f_, _ in fields]}: {type(ex).__name__}: {str(ex)[:80]}"))
             if len(samples) < 2:
                 samples.append({"sig": sig, "flavor": fl, "dtype": str(a.dtype), "element0": rows[0]})
-    return problems, {"index_expressions": n}, samples
+    hp, hn = c19_histories(ctx)
+    problems += hp
+    return problems, {"index_expressions": n, "history_steps": hn}, samples
+
+
+def c19_histories(ctx):
+    """operation HISTORIES on NumPy vector arrays against a plain structured ndarray undergoing the same operations (the trusted
+    reference): name reads (every spelling), name and slice assignment, integer indexing, slicing, views, copies and pickle round
+    trips in random order; after EVERY step class, dtype, raw records and every named column must agree with the reference"""
+    r = C.rng(ctx.seed, "c19-hist")
+    problems, n_steps = [], 0
+    n_hist = 400 if ctx.tier == "quick" else 4000
+    for h in range(n_hist):
+        sig = r.choice(C.ALLSIGS)
+        fl = r.choice("gm")
+        dim = len(sig) + 1
+        rows = operands(r, dim, fl, sig, n=6)
+        arr = C.np_array(fl, sig, rows)
+        cls = type(arr)
+        model = numpy.array(arr.view(numpy.ndarray), copy=True)
+        names = list(model.dtype.names)
+        gen = C.signames(sig)
+        spell = {g: ([g] + ([C.MOMNAME[g]] if fl == "m" and C.MOMNAME[g] != g else [])) for g in gen}
+        trace = []
+        for step in range(r.randint(4, 12)):
+            op = r.choice(["getname", "getname", "setname", "setslice", "int", "slice", "view", "copy", "deepcopy", "pickle", "pickle"])
+            trace.append(op)
+            n_steps += 1
+            try:
+                if op == "getname":
+                    g = r.choice(gen)
+                    sp = r.choice(spell[g])
+                    got = numpy.asarray(arr[sp]).tolist()
+                    if got != model[names[gen.index(g)]].tolist():
+                        problems.append(("history:getname", f"{fl}:{sig} after {trace}: arr[{sp!r}] = {got}, the stored column is {model[names[gen.index(g)]].tolist()}"))
+                        break
+                elif op == "setname":
+                    g = r.choice(gen)
+                    sp = r.choice(spell[g])
+                    newv = numpy.array([r.uniform(0.5, 3.0) for _ in range(len(model))])
+                    arr[sp] = newv
+                    model[names[gen.index(g)]] = newv
+                elif op == "setslice":
+                    i = r.randrange(len(model) - 1)
+                    arr[i:i + 1] = arr[i + 1:i + 2]
+                    model[i:i + 1] = model[i + 1:i + 2]
+                elif op == "int":
+                    k = r.randrange(len(model))
+                    e = arr[k]
+                    if [float(x) for x in C.stored(e)] != [float(model[k][nm_]) for nm_ in names] or C.sig_of(e) != tuple(sig):
+                        problems.append(("history:int-index", f"{fl}:{sig} after {trace}: arr[{k}] = {e!r}, the record is {model[k]}"))
+                        break
+                elif op == "slice":
+                    arr = arr[:]
+                    model = model[:]
+                elif op == "view":
+                    arr = arr.view(cls)
+                elif op == "copy":
+                    arr, model = arr.copy(), model.copy()
+                elif op == "deepcopy":
+                    arr, model = copy.deepcopy(arr), model.copy()
+                elif op == "pickle":
+                    arr, model = pickle.loads(pickle.dumps(arr)), model.copy()
+            except Exception as ex:  # noqa: BLE001
+                problems.append((f"history-raises:{op}", f"{fl}:{sig} after {trace}: {type(ex).__name__}: {str(ex)[:80]}"))
+                break
+            raw = arr.view(numpy.ndarray)
+            if type(arr) is not cls or raw.dtype != model.dtype or raw.tobytes() != model.tobytes():
+                problems.append((f"history:state:{op}", f"{fl}:{sig} after {trace}: class {type(arr).__name__}, records {raw.tolist()[:2]} vs reference {model.tolist()[:2]}"))
+                break
+            stale = [sp for g in gen for sp in spell[g] if numpy.asarray(arr[sp]).tolist() != model[names[gen.index(g)]].tolist()]
+            if stale:
+                problems.append((f"history:column:{op}", f"{fl}:{sig} after {trace}: arr[{stale[0]!r}] = {numpy.asarray(arr[stale[0]]).tolist()} is not the stored column"))
+                break
+    return problems, n_steps
 
 
 # ------------------------------------------------------------------------------------------------ global state (C20)
@@ -589,6 +663,27 @@ def gsnap():
     return (tuple(sorted(numpy.geterr().items())), tuple((f[0], str(f[1]), f[2].__name__, str(f[3]), f[4]) for f in warnings.filters),
             tuple(sorted((k, str(v)) for k, v in numpy.get_printoptions().items())), len(beh), hash(tuple(sorted(map(str, beh.keys())))),
             getattr(vector, "_awkward_registered", None))
+
+
+def module_state():
+    """fingerprint of every module-level mutable container (dict / list / set / bytearray) of the `vector` package: a call that
+    writes into one of them (a cache, a memo table, a registry) leaves a trace in process-wide state"""
+    import sys
+    out = {}
+    for mname, mod in sorted(sys.modules.items()):
+        if not (mname == "vector" or mname.startswith("vector.")) or mod is None:
+            continue
+        for k, v in sorted(vars(mod).items()):
+            if k.startswith("__") or isinstance(v, type(sys)):
+                continue
+            if isinstance(v, dict):
+                out[f"{mname}.{k}"] = ("dict", len(v), hash(tuple(sorted(map(repr, v.keys())))))
+            elif isinstance(v, (list, set, frozenset, bytearray)):
+                try:
+                    out[f"{mname}.{k}"] = (type(v).__name__, len(v), hash(tuple(sorted(map(repr, v)))) if isinstance(v, (set, frozenset)) else hash(tuple(map(repr, v))))
+                except Exception:  # noqa: BLE001
+                    out[f"{mname}.{k}"] = (type(v).__name__, len(v), 0)
+    return out
 
 
 def catalogue(r, tier):
@@ -618,6 +713,13 @@ def catalogue(r, tier):
     out.append(("ctor:Array-own-behavior", lambda: vector.Array(ak.Array([{"x": 1.0, "y": 2.0}], behavior={"k": 1}))))
     out.append(("ctor:obj", lambda: vector.obj(px=1.0, py=2.0, pz=3.0, E=4.0)))
     out.append(("repr", lambda: repr(vector.array({"x": [1.0], "y": [2.0]}))))
+    # constructors with several extra (non-coordinate) fields, the same names in different orders in different calls
+    out.append(("ctor:array-extras-ab", lambda: vector.array({"x": [1.0], "y": [2.0], "weight": [4.0], "charge": [3.0]})))
+    out.append(("ctor:array-extras-ba", lambda: vector.array({"charge": [-1.0], "weight": [0.5], "x": [10.0], "y": [1.0], "z": [2.0]})))
+    out.append(("ctor:zip-extras-ab", lambda: vector.zip({"pt": [1.0], "phi": [2.0], "weight": [4.0], "charge": [3.0]})))
+    out.append(("ctor:zip-extras-ba", lambda: vector.zip({"charge": [3.0], "weight": [4.0], "pt": [1.0], "phi": [2.0]})))
+    out.append(("ctor:Array-extras", lambda: vector.Array([{"q": 1, "x": 1.0, "flag": True, "y": 2.0}])))
+    out.append(("ctor:obj-spellings", lambda: (vector.obj(pt=1.0, phi=2.0, eta=0.5, M=0.1), vector.obj(x=1.0, y=2.0, theta=0.5, e=9.0))))
     return out
 
 
@@ -626,9 +728,11 @@ def result_bits(x):
         if isinstance(x, vector.backends.object.VectorObject):
             return ("o", type(x).__name__, tuple(repr(c) for c in C.stored(x)))
         if isinstance(x, numpy.ndarray):
-            return ("n", type(x).__name__, x.tobytes())
+            return ("n", type(x).__name__, str(x.dtype), x.shape, x.tobytes())
         if isinstance(x, (ak.Array, ak.Record)):
-            return ("a", type(x).__name__, str(ak.to_list(x)))
+            return ("a", type(x).__name__, str(ak.type(x)), str(ak.to_list(x)))
+        if isinstance(x, tuple):
+            return tuple(result_bits(y) for y in x)
         return ("s", repr(x))
     except Exception as e:  # noqa: BLE001
         return ("err", type(e).__name__)
@@ -663,6 +767,21 @@ def c20_run(ctx):
         finally:
             warnings.filters.pop(0) if warnings.filters and warnings.filters[0][2] is RuntimeWarning and warnings.filters[0][0] == "error" else None
             numpy.seterr(**old)
+    # module-level mutable state of the package (caches, memo tables, registries) must be as before after the whole catalogue
+    m0 = module_state()
+    for _, t in cat:
+        run_thunk(t)
+    m1 = module_state()
+    for k in sorted(set(m0) | set(m1)):
+        if m0.get(k) != m1.get(k):
+            problems.append((f"module-state:{k}", f"module-level container {k} changed during the catalogue: {m0.get(k)} -> {m1.get(k)}"))
+    # history independence: every call gives the same result whatever ran before it (catalogue forwards vs. backwards)
+    fwd = [run_thunk(t) for _, t in cat]
+    bwd = list(reversed([run_thunk(t) for _, t in reversed(cat)]))
+    for (name, _), a_, b_ in zip(cat, fwd, bwd):
+        if a_ != b_:
+            problems.append((f"history:{name.split(':')[0]}:{name.split(':')[-1]}", f"call {name} gives {str(a_)[:80]} after the forward history and {str(b_)[:80]} after the backward one"))
+            break
     # a caller-owned behavior mapping handed to vector.Array must not be mutated
     b0 = dict(user_behavior)
     try:
